@@ -62,6 +62,10 @@ def run(ctx):
     cfgs, N_MANDATORY = configs(ctx)
     kernelcheck.run_configs(ctx, cfgs, budget_s=70 if ctx.tier == "quick" else 3000, mandatory=N_MANDATORY)
     dc = kernelmat.default_config
+    if ctx.tier != "quick":
+        ro = random.Random(ctx.sub("orbit"))
+        kernelcheck.run_orbit_classes(ctx, [(dc(op="pg", n=5, N=2, proposal=ro.choice(PROPOSALS), wiring=ro.choice(["run", "lib"]), data_seed=79,
+                                                alpha=ro.choice([0.7, 1.0, 1.6])), {"kind": "all"})], max_leaves=4000000)
     rs = random.Random(ctx.sub("statcfg"))
     stat_cfgs = [dc(op="pg", n=5, N=rs.choice([3, 5, 10]), style=rs.choice(["binom", "gauss"]), grid=rs.choice([7, 11]), proposal=p_, wiring=rs.choice(["run", "lib"]),
                     data_seed=rs.randrange(1 << 30), alpha=rs.choice([0.5, 1.0, 2.0]), outlier_prob=rs.choice([0.0, 0.0, 0.1]), threshold=rs.choice([0.5, 1.0]))
